@@ -1,6 +1,7 @@
 import BddVerif.Props.C09
 import BddVerif.Lemmas.AlgoEqUtilSpec
 import BddVerif.Lemmas.AlgoEq2RenDriver
+import BddVerif.Props.C09F64
 #print axioms B.Props.C09.cnt_eq_filter_length
 #print axioms B.Props.C09.all_vals_enumeration
 #print axioms B.Props.C09.exact_card_spec
@@ -25,3 +26,23 @@ import BddVerif.Lemmas.AlgoEq2RenDriver
 #print axioms B.AlgoEqUtil.Bdd_support_set_spec
 #print axioms B.AlgoEqUtil.Bdd_support_set_exact
 #print axioms B.AlgoEq2Ren.size_per_variable_eq_model
+#print axioms B.Props.C09.f64_round_rel
+#print axioms B.Props.C09.f64_add_rounding
+#print axioms B.Props.C09.f64_mulPow2_exact
+#print axioms B.Props.C09.f64_bits_roundtrip
+#print axioms B.Props.C09.exactCard_is_count
+#print axioms B.Props.C09.pathDepth_le
+#print axioms B.Props.C09.cardinality_f64_total
+#print axioms B.Props.C09.cardinality_f64_fin
+#print axioms B.Props.C09.cardinality_f64_inf
+#print axioms B.Props.C09.cardinality_f64_spec
+#print axioms B.Props.C09.cardinality_f64_spec_n
+#print axioms B.Props.C09.cardinality_f64_spec_size
+#print axioms B.Props.C09.cardinality_f64_overflow
+#print axioms B.Props.C09.cardinality_f64_zero_iff
+#print axioms B.Props.C09.cardinality_f64_unguarded_defect
+#print axioms B.Props.C09.f64_ofNat_small
+#print axioms B.Props.C09.cardinality_f64_exact_small
+#print axioms B.Props.C09.cardinality_f64_exact_le52
+#print axioms B.Count.cardGoF_eq_fast
+#print axioms B.F64.add_comm
